@@ -14,6 +14,9 @@ MOD = "example.com/m"
 FOREIGN = {
     "ma": ("a/model", "model"), "mb": ("b/model", "model"), "mc": ("c/model", "model"), "odd": ("odd-dir", "oddname"), "http": ("http", "http"),
     "sync": ("sync", "sync"), "fmt": ("fmt", "fmt"), "mock": ("mock", "mock"), "testing": ("testing", "testing"),
+    # import paths whose last element is not the package name in the ways module authors really use (major-version suffix, gopkg.in style,
+    # go- prefix, dots): tools that guess a package name from its path guess these differently from a plain odd directory
+    "v2": ("lib/v2", "lib"), "yv3": ("yaml.v3", "yaml"), "goxyz": ("go-xyz", "xyz"), "dotted": ("a.b.c", "abc"),
 }
 STD = {"io": "io", "context": "context", "nethttp": "net/http", "time": "time", "unsafe": "unsafe", "sort": "sort", "stdfmt": "fmt", "os": "os"}
 # qualifiers used in the source files (explicit aliases, so two packages named `model` can coexist)
@@ -307,7 +310,9 @@ def catalogue(g):
         "generic-inst-local": "LG[int]", "generic-inst-foreign-arg": "LG[%s.T]" % qb, "generic-inst-foreign": "%s.G[LS]" % qa, "generic-inst-2": "%s.G2[string, %s.T]" % (qb, qc),
         "generic-inst-nested": "LG[LG[%s.G[int]]]" % qa, "generic-iface-inst": "LGI[%s.E]" % qa, "alias-local": "LA", "alias-to-foreign": "LAF", "alias-to-std": "LCtx",
         "alias-to-basic": "LID", "alias-generic-inst": "LAG", "foreign-alias": "%s.A" % qa, "foreign-alias-to-std": "%s.Ctx" % qb, "foreign-alias-to-basic": "%s.ID" % qc,
-        "foreign-alias-to-func": "%s.Fn" % qo, "deep-nesting": "map[string][]*[2]chan func(%s.T) map[LE][]*LS" % qa,
+        "foreign-alias-to-func": "%s.Fn" % qo,
+        "foreign-path-major-suffix": "map[%s.E]%s.T" % (Q["v2"], Q["yv3"]), "foreign-path-go-prefix-dotted": "func(%s.T) %s.T" % (Q["goxyz"], Q["dotted"]),
+        "deep-nesting": "map[string][]*[2]chan func(%s.T) map[LE][]*LS" % qa,
     }
     if g.allow_unexported:
         shapes.update({"local-unexported-struct": "ls", "local-unexported-iface": "li", "ptr-unexported": "*ls"})
